@@ -50,7 +50,8 @@ META = {
         "content is tokenised only when rendered (fence, colon_fence, html_block, substitution_block) are not covered by that "
         "search (known finding). "
         "(R4) The collector's move loop (in apply or one helper) is guarded by myst_footnote_sort only, gathers every entry "
-        "of document.footnotes and autofootnotes exactly once, detaches then attaches each footnote once per iteration, in "
+        "of document.footnotes and autofootnotes exactly once (from the registries, not by walking the tree: a registered "
+        "footnote detached from the tree must be re-attached), detaches then attaches each footnote once per iteration, in "
         "ascending sorted(key=) order; at most one transition is built, under both settings, appended to the document before "
         "the footnotes; SortFootnotes permutes document.autofootnotes in place exactly once (no filtered rebuild, no "
         "discarded copy), ordered from document.autofootnote_refs. "
@@ -68,7 +69,9 @@ META = {
         "local alias or value helper with a literal/f-string name) - never from a build-wide configuration object such "
         "as env.myst_config, which ignores front matter; every such setting is written unconditionally during render from the same-named "
         "MdParserConfig field, and each front end's parse builds the configuration it hands to create_md_parser from the "
-        "document at hand, never from an attribute the parser object stores itself (a memo that outlives the document). "
+        "document at hand, never from an attribute the parser object stores itself (a memo that outlives the document); a "
+        "wrapper around create_md_parser that can return a parser object kept between calls must store the current "
+        "configuration in its options['myst_config'] on every path. "
         "(R8) Sort keys are total: one comparable kind on all returns, or every label the renderer can create converts with int(). "
         "(R9) The footnote transition is attached only under a guard that looks at the document's children (not first) and "
         "- the class test must be quantified over ALL top-level children: applied to one child picked by position, next(), "
@@ -749,6 +752,52 @@ def _config_from_parser_state(corpus: Corpus, pf: FunctionInfo, arg: ast.expr):
     return None
 
 
+def _config_handoff(corpus: Corpus, f: FunctionInfo, depth: int = 0):
+    """(index of the parameter of ``f`` that becomes the renderer's configuration, problem | None).
+    ``create_md_parser(config, renderer)`` stores its first parameter in options['myst_config']; a wrapper that
+    may return a parser object kept between calls must refresh that option from its own parameter on every path."""
+    if f.name == "create_md_parser" and f.cls is None:
+        return 0, None
+    if depth > 1 or f.is_lambda:
+        return None, None
+    inner = None
+    for n in f.local_nodes():
+        if isinstance(n, ast.Call) and isinstance(n.func, ast.Name) and n.args:
+            t = corpus.find_function(f.module.resolve(n.func.id))
+            if t is not None and t.fq != f.fq:
+                i_, prob = _config_handoff(corpus, t, depth + 1)
+                if i_ is not None and len(n.args) > i_ and isinstance(n.args[i_], ast.Name) and n.args[i_].id in f.params:
+                    inner = (f.params.index(n.args[i_].id), prob, n)
+    if inner is None:
+        return None, None
+    pi, prob, call = inner
+    pname = f.params[pi]
+    # can an object created by an earlier call be returned?  (a value read from module-level / attribute state)
+    kept = []
+    for n in f.local_nodes():
+        if isinstance(n, ast.Return) and n.value is not None:
+            v = _deref(f, n.value) if isinstance(n.value, ast.Name) else n.value
+            roots = [x for x in ast.walk(v) if isinstance(x, ast.Name) and isinstance(x.ctx, ast.Load) and (x.id in f.module.const_nodes)]
+            if roots and not (isinstance(v, ast.Call) and v is call):
+                kept.append(n)
+    if kept:
+        cfg = get_cfg(f)
+        refresh = [n for n in f.local_nodes() if isinstance(n, ast.Assign) and any(isinstance(t, ast.Subscript) and isinstance(t.slice, ast.Constant) and t.slice.value == "myst_config" for t in n.targets) and _is_name(n.value, pname)]
+        refresh += [n for n in f.local_nodes() if isinstance(n, ast.Expr) and isinstance(n.value, ast.Call) and isinstance(n.value.func, ast.Attribute) and n.value.func.attr == "update" and any(isinstance(d_, ast.Dict) and any(isinstance(k_, ast.Constant) and k_.value == "myst_config" and _is_name(v_, pname) for k_, v_ in zip(d_.keys, d_.values)) for d_ in n.value.args)]
+        if not any(cfg.postdominates(cfg.stmt_of(r_), ENTRY) for r_ in refresh):
+            prob = prob or (
+                f"{f.qualname} can return a parser object kept from an earlier call without storing the current configuration in its options['myst_config'] on every path: "
+                "a later document is rendered with the configuration (footnote_sort, footnote_transition, ...) of the document the parser was created for"
+            )
+    return pi, prob
+
+
+def _handoff_arg(corpus: Corpus, pf: FunctionInfo, call: ast.Call) -> ast.expr:
+    t = corpus.find_function(pf.module.resolve(dotted(call.func) or ""))
+    i_, _p = _config_handoff(corpus, t)
+    return call.args[i_]
+
+
 @rule("C11.R7")
 def r7_settings_plumbing(corpus: Corpus, rep: Report, tier: str):
     _use(corpus)
@@ -833,11 +882,25 @@ def r7_settings_plumbing(corpus: Corpus, rep: Report, tier: str):
     for fq in ("parsers.docutils_:Parser.parse", "parsers.sphinx_:MystParser.parse"):
         pf = corpus.func(fq)
         rep.saw_function(pf.fq)
-        calls = [n for n in pf.local_nodes() if isinstance(n, ast.Call) and (dotted(n.func) or "").rsplit(".", 1)[-1] == "create_md_parser" and n.args]
+        calls = []
+        stale_parser = None
+        for n in pf.local_nodes():
+            if isinstance(n, ast.Call) and n.args and isinstance(n.func, (ast.Name, ast.Attribute)):
+                tgt = corpus.find_function(pf.module.resolve(dotted(n.func) or "")) if isinstance(n.func, ast.Name) else None
+                if tgt is None:
+                    continue
+                arg_i, problem = _config_handoff(corpus, tgt)
+                if arg_i is not None and len(n.args) > arg_i:
+                    calls.append((n, n.args[arg_i]))
+                    stale_parser = stale_parser or problem
         if len(calls) != 1:
-            raise Unsupported(f"{pf.qualname}: expected one create_md_parser(config, ...) call, found {len(calls)}")
-        memo = _config_from_parser_state(corpus, pf, calls[0].args[0])
+            raise Unsupported(f"{pf.qualname}: expected one call handing the configuration to create_md_parser, found {len(calls)}")
         key = f"{pf.fq}|configuration is built from this document"
+        if stale_parser:
+            rep.violation("C11.R7", key, pf.module.site(calls[0][0]), stale_parser)
+            continue
+        calls = [calls[0][0]]
+        memo = _config_from_parser_state(corpus, pf, _handoff_arg(corpus, pf, calls[0]))
         if memo is None:
             rep.ok("C11.R7", key, pf.module.site(calls[0]))
         else:
@@ -1873,7 +1936,21 @@ def r4_collector(corpus: Corpus, rep: Report, tier: str):
     if init is not None:
         srcs |= {x.attr for x in ast.walk(init) if isinstance(x, ast.Attribute) and _doc_attr(x, x.attr)}
     if not srcs:
-        raise Unsupported(f"{fi.qualname}: cannot see which document registries feed `{gathered.id}`")
+        walked = None
+        for e_ in [a.iter for f_ in fills for a in ancestors(f_) if isinstance(a, ast.For)] + ([init] if init is not None else []):
+            for x in ast.walk(e_):
+                if isinstance(x, ast.Call) and ((isinstance(x.func, ast.Attribute) and x.func.attr in TRAVERSALS) or (dotted(x.func) or "").rsplit(".", 1)[-1] in ("findall", "traverse")) and any(_is_document(y) for y in ast.walk(e_)):
+                    walked = x
+        if walked is None:
+            raise Unsupported(f"{fi.qualname}: cannot see which document registries feed `{gathered.id}`")
+        for reg in ("footnotes", "autofootnotes"):
+            rep.violation(
+                "C11.R4",
+                f"{fi.fq}|gathers document.{reg}",
+                fi.module.site(walked),
+                f"the definitions to move are found by walking the document tree (`{short(walked, 50)}`), not read from document.{reg}: a footnote that is registered - and therefore numbered and linked by docutils - but not attached to the tree (written in the body of a directive that parses its content into a scratch node and discards it, e.g. {{list-table}} with only `[^a]: text`) is no longer re-attached, so its reference points at an id no element carries and its text is lost",
+            )
+        srcs = {"footnotes", "autofootnotes", "<tree>"}
     for f_ in fills:
         gl = next((a for a in ancestors(f_) if isinstance(a, ast.For)), None)
         if gl is None:
@@ -1894,6 +1971,8 @@ def r4_collector(corpus: Corpus, rep: Report, tier: str):
             rep.violation("C11.R4", f"{fi.fq}|gathers every footnote of the registries once", fi.module.site(cmp_), "the registries are filtered before collecting: a skipped definition stays where written although footnote_sort is on")
     for reg in ("footnotes", "autofootnotes"):
         key = f"{fi.fq}|gathers document.{reg}"
+        if "<tree>" in srcs:
+            continue
         if reg in srcs:
             rep.ok("C11.R4", key, site)
         else:
@@ -3381,6 +3460,9 @@ def mutants(corpus: Corpus):
     if gather is not None:
         n = next((x for x in ast.walk(gather.iter) if _doc_attr(x, "autofootnotes")), None)
         add("c11-collector-skips-autofootnotes", "C11.R4", tm, n, "[]", "gathers document.autofootnotes")
+        # the definitions are looked up in the tree instead of the registries (class of seed8 out-c11/1)
+        add("c11-collector-walks-the-tree-findall-helper", "C11.R4", tm, gather.iter, "list(findall(self.document)(nodes.footnote))", "gathers document.autofootnotes")
+        add("c11-collector-walks-the-tree-method", "C11.R4", tm, gather.iter, "self.document.findall(nodes.footnote)", "gathers document.footnotes")
     ret_if = find_node(cf, lambda n: isinstance(n, ast.If) and any(isinstance(x, ast.Return) for x in n.body))
     if ret_if is not None:
         n = next(iter(_option_reads(cf, ret_if.test, "myst_footnote_sort")), None)
@@ -3514,6 +3596,28 @@ def mutants(corpus: Corpus):
     fin0 = base.functions.get("DocutilsRenderer._render_finalise")
     st0 = find_stmt(fin0, lambda n: isinstance(n, ast.Assign) and isinstance(n.targets[0], ast.Attribute) and n.targets[0].attr == "myst_footnote_sort") if fin0 is not None else None
     add("c11-stored-option-prefers-settings-value", "C11.R7", base, st0.value if st0 is not None else None, f"getattr(self.document.settings, \"myst_footnote_sort\", None) or {_seg(base, st0.value) if st0 is not None else ''}", "setting myst_footnote_sort")
+    # a parser object shared between documents whose configuration option is not refreshed (the unsafe variant of recorded seed C02-b2)
+    pmod_ = corpus.mod("parsers.mdit")
+    for mid, modname, fq_, refresh in (
+        ("c11-shared-md-parser-keeps-first-config", "parsers.docutils_", "Parser.parse", False),
+        ("c11-shared-md-parser-refreshed-only-when-created", "parsers.sphinx_", "MystParser.parse", None),
+    ):
+        fmod = corpus.mod(modname)
+        pfn = fmod.functions.get(fq_)
+        ccall = find_node(pfn, lambda n: isinstance(n, ast.Call) and _is_name(n.func, "create_md_parser")) if pfn is not None else None
+        if ccall is None or "import create_md_parser" not in fmod.src:
+            out.append((mid, "create_md_parser(...) call / import not found"))
+            continue
+        new_front = splice(fmod.src, ccall.func, "get_md_parser").replace("import create_md_parser", "import create_md_parser, get_md_parser", 1)
+        body = (
+            "\n\n_PARSERS: dict = {}\n\n\ndef get_md_parser(config, renderer):\n"
+            "    key = (renderer, tuple(sorted(config.enable_extensions)), tuple(config.disable_syntax))\n"
+            "    if key not in _PARSERS:\n"
+            "        _PARSERS[key] = create_md_parser(config, renderer)\n"
+            + ("        _PARSERS[key].options[\"myst_config\"] = config\n" if refresh is None else "")
+            + "    return _PARSERS[key]\n"
+        )
+        out.append(Mutant(mid, "C11.R7", fmod.rel, new_front, expect="configuration is built from this document", more={pmod_.rel: pmod_.src + body}))
     # ---- R7
     fin = base.func("DocutilsRenderer._render_finalise") if "DocutilsRenderer._render_finalise" in base.functions else None
     if fin is not None:
